@@ -74,23 +74,12 @@ def lock_decl_index(prog, f):
     return None, None, None
 
 
-def check(ctx, run):
-    prog = ctx.program()
-    run.assume("POSIX pthread_mutex_lock/unlock provide mutual exclusion (trusted base)")
-    run.assume("virtual calls resolved by class-hierarchy analysis over the analysed library units; function-pointer slots by every function ever stored into them")
-    run.not_decided.append("schedule-independence of the final accounting for all interleavings (follows from mutual exclusion plus sequential exactness, which is not decided statically: see C04)")
-    run.not_decided.append("data races inside user-supplied allocators")
-
-    run.rule("R1", "WHO/SIBLING: every switch function (thread-safe, default, off, save, restore) assigns each of the function-pointer slots exactly once on every active path", floor=55)
-    run.rule("R2", "SIBLING: the function the thread-safe switch stores in a slot = the default function of that slot + one leading RAII lock declaration that precedes every other statement", floor=11)
-    run.rule("R3", "ORDER/TABLE: the RAII lock takes the global detector's mutex; Lock/Unlock pair once each; the platform slots reach pthread_mutex_*", floor=12)
-    run.rule("R4", "REACH: no call path from a function that holds the RAII lock reaches longjmp (throw is allowed: unwinding releases)", floor=11)
-
+def slot_switch_rules(prog, run, rid):
+    """WHO/SIBLING over the switch functions (shared by C10.R1 and C04.R8). Returns (slots, saved slots, stored map)."""
     slots = [s for s in slot_vars(prog) if not s.startswith("saved_")]
     saved = [s for s in slot_vars(prog) if s.startswith("saved_")]
     if len(slots) < 11:
         raise AnalysisBroken("found only %d function-pointer slots in %s" % (len(slots), PLUGIN))
-
     # ---------------- R1 --------------------------------------------------
     stored = {}
     for kind, qn in SWITCHES.items():
@@ -118,7 +107,7 @@ def check(ctx, run):
                     why = "different functions stored on different paths"
                 tgt = t
             stored[kind][s] = tgt
-            run.ob("R1", "%s assigns %s" % (kind, s), f.site, ok, witness=(prog.functions[tgt].qn if tgt in prog.functions else tgt), what=why)
+            run.ob(rid, "%s assigns %s" % (kind, s), f.site, ok, witness=(prog.functions[tgt].qn if tgt in prog.functions else tgt), what=why)
     fs, fr = prog.fn(SAVE), prog.fn(RESTORE)
     run.analysed(fs)
     run.analysed(fr)
@@ -143,7 +132,7 @@ def check(ctx, run):
         if ok and (src not in saved):
             ok = False
             why = "restore source %s is not a dedicated saved_* slot" % src
-        run.ob("R1", "restore assigns %s" % s, fr.site, ok, witness=src, what=why)
+        run.ob(rid, "restore assigns %s" % s, fr.site, ok, witness=src, what=why)
         ok2 = bool(ps) and src is not None
         why2 = "" if ok2 else "no saved slot known"
         if ok2:
@@ -152,13 +141,35 @@ def check(ctx, run):
                 if a != [s]:
                     ok2 = False
                     why2 = "save does not store %s into %s exactly once on path [%s] (found %s)" % (s, src, p.describe(fs), a)
-        run.ob("R1", "save stores %s" % s, fs.site, ok2, witness=src, what=why2)
+        run.ob(rid, "save stores %s" % s, fs.site, ok2, witness=src, what=why2)
     # save ends by switching off; distinct saved slot per slot
     offq = SWITCHES["off"]
     for p in ps:
         names = [call_name(prog, fs, c) for c in path_calls(prog, fs, p)]
-        run.ob("R1", "save switches the overloads off after saving", fs.site, names.count(offq) == 1, witness=p.describe(fs),
+        run.ob(rid, "save switches the overloads off after saving", fs.site, names.count(offq) == 1, witness=p.describe(fs),
                what="" if names.count(offq) == 1 else "turnOff called %d times" % names.count(offq))
+
+    return slots, saved, stored
+
+
+def check(ctx, run):
+    prog = ctx.program()
+    run.assume("POSIX pthread_mutex_lock/unlock provide mutual exclusion (trusted base)")
+    run.assume("virtual calls resolved by class-hierarchy analysis over the analysed library units; function-pointer slots by every function ever stored into them")
+    run.not_decided.append("schedule-independence of the final accounting for all interleavings (follows from mutual exclusion plus sequential exactness, which is not decided statically: see C04)")
+    run.not_decided.append("data races inside user-supplied allocators")
+
+    run.rule("R1", "WHO/SIBLING: every switch function (thread-safe, default, off, save, restore) assigns each of the function-pointer slots exactly once on every active path", floor=55)
+    run.rule("R2", "SIBLING: the function the thread-safe switch stores in a slot = the default function of that slot + one leading RAII lock declaration that precedes every other statement", floor=11)
+    run.rule("R3", "ORDER/TABLE: the RAII lock takes the global detector's mutex; Lock/Unlock pair once each; the platform slots reach pthread_mutex_*", floor=12)
+    run.rule("R4", "REACH: no call path from a function that holds the RAII lock reaches longjmp (throw is allowed: unwinding releases)", floor=11)
+
+    slots = [s for s in slot_vars(prog) if not s.startswith("saved_")]
+    saved = [s for s in slot_vars(prog) if s.startswith("saved_")]
+    if len(slots) < 11:
+        raise AnalysisBroken("found only %d function-pointer slots in %s" % (len(slots), PLUGIN))
+
+    slots, saved, stored = slot_switch_rules(prog, run, "R1")
 
     # ---------------- R2 --------------------------------------------------
     locked_fns = []
